@@ -73,8 +73,8 @@ def run(ctx):
         depth = 2
         ctx.budget = ctx.budget or 170
     else:
-        depth = 4
-        ctx.budget = ctx.budget or 1500
+        depth = 3
+        ctx.budget = ctx.budget or 1800
     st = explore_seq.explore(ctx, 'vp.props.c10', 'Spec', (2,), max_depth=depth)
     fill(ctx, st, 'BFS over an alphabet containing every write path (POST/PUT/DELETE inventory and '
          'inventories, PUT/DELETE provider traits incl. no-op and clearing, PUT aggregates at 1.18 '
